@@ -107,6 +107,7 @@ package stream
 //@   assigns data, rdCount, rdTotal, rdLast, rdFail, ctxClock, afCtx, afCount
 //@   ensures read_ok: err == nil ==> rdCount == old(rdCount) + 1 && rdTotal == old(rdTotal) + len(data) && rdLast == str(data) && rdFail == old(rdFail)
 //@   ensures read_fail: err != nil ==> rdCount <= old(rdCount) + 1
+//@   ensures monotone: rdTotal >= old(rdTotal)
 //@   ensures fail_class: err != nil ==> rdFail == old(rdFail) + 1 || (rdCount == old(rdCount) + 1 && ctxErrAt(ctx, ctxClock) != nil) || (ctxClock == old(ctxClock) && ctxErrAt(ctx, ctxClock) != nil)
 
 //@ func (*Stream).sendMessageWithEnd
@@ -154,7 +155,8 @@ package stream
 //@   ensures err_nodata: [C02] err != nil ==> result == nil && endFlag == 0 && openOKCount == old(openOKCount)
 //@   ensures flag_range: err == nil ==> endFlag <= 10
 //@   ensures bounded: [C13] err == nil ==> len(result) <= 1048576 + 32
-//@   ensures ok_monotone: openOKCount >= old(openOKCount)
+//@   ensures ok_monotone: openOKCount >= old(openOKCount) && rdTotal >= old(rdTotal)
+//@   ensures not_eof: [C02] err != io.EOF
 //@   ensures plain_is_wire: [C01] err == nil && !opening ==> openCount == old(openCount) && (len(result) == 0 ==> rdCount == old(rdCount) + 1) && (len(result) > 0 ==> rdCount == old(rdCount) + 2 && str(result) == rdLast)
 //@   ensures reject_justified: [C01] err != nil && rdFail == old(rdFail) && rdCount == old(rdCount) + 1 && ctxErrAt(ctx, ctxClock) == nil ==> be32(rdLast, 1) > wireLimit(old(s.gcm) != nil) || rdLast[0] > 10 || (be32(rdLast, 1) == 0 && opening)
 //@   ensures consumed: [C13] err == nil ==> rdTotal == old(rdTotal) + 5 + len(result) + ite(opening, 16 + ivlen, 0)
@@ -197,6 +199,7 @@ package stream
 //@   ensures plain_payload: [C01] err == nil && !sealing ==> forall i :: 0 <= i && i < len(data) ==> wrLast[5+i] == old(data[i])
 //@   ensures sealed: [C01 C12 C09] err == nil && sealing ==> sealCount == old(sealCount) + 1 && sealPT == old(str(data)) && sealObj == s.gcm
 //@   ensures plain_noseal: [C09] !sealing ==> sealCount == old(sealCount)
+//@   ensures at_most_one: wrCount <= old(wrCount) + 1
 //@   ensures wf_kept: digestsWF(s) && buffersSeparate(s)
 
 //@ func (*Stream).ReadFrame (s, ctx) (result, isEOM, err)
@@ -208,6 +211,8 @@ package stream
 //@   ensures err_nodata: [C02] err != nil ==> result == nil && !isEOM && openOKCount == old(openOKCount)
 //@   ensures consumed: [C13] err == nil ==> rdTotal == old(rdTotal) + 5 + len(result) + ite(old(sealingOn(s)), 16 + ite(old(s.decryptCounter) == 0, 16, 0), 0)
 //@   ensures bounded: [C13] err == nil ==> len(result) <= 1048576 + 32
+//@   ensures not_eof: [C02] err != io.EOF
+//@   ensures monotone: openOKCount >= old(openOKCount) && rdTotal >= old(rdTotal)
 //@   ensures wf_kept: digestsWF(s)
 
 //@ func (*Stream).readNextFrame
@@ -287,3 +292,14 @@ package stream
 //@   ensures idle: !old(s.inMessage) ==> err != nil
 //@   ensures unconsumed: old(s.inMessage) && old(s.bytesRead) < old(s.totalMsgBytes) ==> err != nil && s.inMessage && s.bytesRead == old(s.bytesRead)
 //@   ensures done: err == nil ==> !s.inMessage && s.receiveBuffer == nil && s.bytesRead == 0 && s.totalMsgBytes == 0
+
+// Data refinement: *Stream implements message.StreamInterface. The interface-level ghost state is defined by the
+// coupling relation; every obligation below is "the Stream method's contract implies the interface method's contract".
+//@ refine github.com/bbockelm/cedar/message.StreamInterface.IsEncrypted by (*github.com/bbockelm/cedar/stream.Stream).IsEncrypted coupling strmEncrypting == impl.encrypted && strmKeyed == (impl.gcm != nil)
+//@ refine github.com/bbockelm/cedar/message.StreamInterface.ReadFrame by (*github.com/bbockelm/cedar/stream.Stream).ReadFrame coupling strmEncrypting == impl.encrypted && strmKeyed == (impl.gcm != nil) && digestsWF(impl)
+//@ refine github.com/bbockelm/cedar/message.StreamInterface.WriteFrame by (*github.com/bbockelm/cedar/stream.Stream).WriteFrame coupling strmEncrypting == impl.encrypted && strmKeyed == (impl.gcm != nil) && digestsWF(impl) && buffersSeparate(impl) assuming ref(data) != ref(impl.frameBuf) || ref(data) == 0
+
+//@ func (*Stream).IsEncrypted
+//@   props C09 C14
+//@   pure
+//@   ensures result == s.encrypted
